@@ -135,6 +135,40 @@ func genC02(w *bufio.Writer, tier string, rng *rand.Rand) {
 		}
 	}
 	fmt.Fprintf(w, "ud 3 4 [] bounds\nud 5 2 [2,5] bounds\n")
+	// every pair of sizes up to 25+25 with a short tie vector, a few points each
+	for n1 := 1; n1 <= 25; n1++ {
+		for n2 := 1; n2 <= 25; n2++ {
+			if !isThorough(tier) && rng.Intn(2) == 0 {
+				continue
+			}
+			N := n1 + n2
+			var t []int
+			switch rng.Intn(3) {
+			case 0:
+				t = []int{1 + rng.Intn(N-1)}
+				t = append(t, N-t[0])
+			case 1:
+				a := 1 + rng.Intn(N-1)
+				t = []int{a}
+				for r := N - a; r > 0; r-- {
+					t = append(t, 1)
+				}
+			default:
+				for r := N; r > 0; {
+					x := 1 + rng.Intn(minI(3, r))
+					t = append(t, x)
+					r -= x
+				}
+			}
+			if len(t) < 2 {
+				continue
+			}
+			for q := 0; q < 3; q++ {
+				u := float64(rng.Intn(2*n1*n2+1)) / 2
+				fmt.Fprintf(w, "ud %d %d %s cdf %s\n", n1, n2, fmtInts(t), fmtF(u))
+			}
+		}
+	}
 	// histories: one distribution size, tie vectors of one length written one after another into
 	// the same buffer, every grid point asked of each, in a process of its own
 	for h := 0; h < pick(tier, 12, 150); h++ {
@@ -446,6 +480,25 @@ func genC01(w *bufio.Writer, tier string, rng *rand.Rand) {
 		}
 	}
 	denseMWU(w, rng, pick(tier, 25, 400), 50, 25)
+	// every pair of sizes up to the tied exact limit once (thorough: three times), lightly tied: the
+	// binomial coefficients of every pooled size 2..50 and every split are exercised
+	for rep := 0; rep < pick(tier, 1, 3); rep++ {
+		for n1 := 1; n1 <= 25; n1++ {
+			for n2 := 1; n2 <= 25; n2++ {
+				N := n1 + n2
+				vals := make([]float64, N)
+				for i, p := range rng.Perm(N) {
+					vals[i] = float64(p)
+				}
+				// one or two ties
+				for k := 0; k < 1+rng.Intn(2) && N > 1; k++ {
+					i, j := rng.Intn(N), rng.Intn(N)
+					vals[i] = vals[j]
+				}
+				emit(vals[:n1], vals[n1:], rng.Intn(3)-1)
+			}
+		}
+	}
 }
 
 // denseMWU emits histories: many tests in one fresh process on samples of one fixed pair of
@@ -552,7 +605,7 @@ func genC03(w *bufio.Writer, tier string, rng *rand.Rand) {
 		if rng.Intn(25) == 0 {
 			tl = 3
 		}
-		shift := []float64{0, 0, 0.3, 1, -2}[rng.Intn(5)]
+		shift := []float64{0, 0, 0.3, 1, -2, 3, 8}[rng.Intn(7)] // up to fully separated samples (deep tails)
 		x1 := randSample(n1, tl, 0)
 		x2 := randSample(n2, tl, shift)
 		if tl == 1 && rng.Intn(3) == 0 && n1 > 0 {
